@@ -16,6 +16,36 @@ def check_c07(sess, st, res, cfg):
     blocked, applied, unspec = R.ref_options(
         st['comments'], author, admins, sess.options, sess.commands,
         sess.registry)
+    # whatever the shape of the comments (also those the grammar does not
+    # specify): a privileged option is on only if an admin who is not the
+    # author named it in a comment (or the command line set it), an
+    # author-only option only if the author named it
+    if res.get('settings'):
+        defaults0 = set(cfg.get('cmd_line_options', []))
+        for k, real in res['settings'].items():
+            if k == 'after_pull_request' or not real or k in defaults0:
+                continue
+            opt = sess.registry.get(k)
+            if opt is None:
+                continue
+            if opt.privileged and not any(
+                    by in admins and by != author and k in text
+                    for (by, text) in st['comments']):
+                return Violation(
+                    'C07', 'C07:option-switched-on:privileged:%s:'
+                    'no-entitled-comment-names-it' % k,
+                    'option %s is active although no comment of an admin '
+                    'other than the author names it (admins %s, author %s, '
+                    'comments %r)' % (k, admins, author, st['comments']), {})
+            if opt.authored and not any(
+                    by == author and k in text
+                    for (by, text) in st['comments']):
+                return Violation(
+                    'C07', 'C07:option-switched-on:authored:%s:'
+                    'no-comment-of-the-author-names-it' % k,
+                    'option %s is active although no comment of the author '
+                    'names it (author %s, comments %r)' % (
+                        k, author, st['comments']), {})
     if unspec:
         sess.probe('unspecified-shape')
         return None
